@@ -145,7 +145,9 @@ class SoapClientAsync:
             else:
                 headers['Content-Length'] = str(len(xml_request))
 
-            async with self._http_connection.post(path, data=xml_request, headers=headers) as resp:
+            # never follow a redirect: the target could be a plain http address although tls is configured
+            async with self._http_connection.post(path, data=xml_request, headers=headers,
+                                                  allow_redirects=False) as resp:
                 xml_response = await resp.text()
 
         finally:
